@@ -20,7 +20,8 @@ class Tool:
         self.dir = tempfile.mkdtemp(prefix='verif-replay-')
         src = os.path.join(self.dir, 'src')
         os.makedirs(src)
-        shutil.copy(os.path.join(VERIF, 'replay_tool', 'src', 'main.rs'), os.path.join(src, 'main.rs'))
+        for fn in os.listdir(os.path.join(VERIF, 'replay_tool', 'src')):
+            shutil.copy(os.path.join(VERIF, 'replay_tool', 'src', fn), os.path.join(src, fn))
         with open(os.path.join(VERIF, 'replay_tool', 'Cargo.toml.in')) as f:
             toml = f.read().replace('@REPO@', self.repo)
         with open(os.path.join(self.dir, 'Cargo.toml'), 'w') as f:
